@@ -45,14 +45,23 @@ for k, v in vars(S).items():
 
 noise = random.Random(noise_seed)
 _keep = []
+class _J(object):
+    """same allocator size class as expression nodes (instance + __dict__)"""
+    def __init__(self):
+        self.a = None
 def alloc_noise():
-    """Seeded allocation/free pattern: perturbs id() order deterministically."""
-    n = noise.randrange(0, 40)
-    junk = [[None] * noise.randrange(1, 30) for _ in range(n)]
-    if noise.random() < 0.5:
-        _keep.append(junk[::3])
-    if len(_keep) > 50:
-        del _keep[:25]
+    """Seeded allocation/free pattern: punches holes into the allocator pools
+    that expression nodes come from, so that id() order of the objects built
+    next is perturbed deterministically."""
+    n = noise.randrange(0, 60)
+    junk = [_J() for _ in range(n)]
+    lists = [[None] * noise.randrange(1, 30) for _ in range(noise.randrange(0, 10))]
+    noise.shuffle(junk)
+    cut = noise.randrange(0, n + 1)
+    _keep.append(junk[:cut])          # the rest is freed in shuffled order: LIFO free lists hand it back reversed
+    del junk
+    if len(_keep) > 40:
+        del _keep[:noise.randrange(1, 30)]
 
 def build(s):
     alloc_noise()
@@ -100,6 +109,23 @@ def run_item(item):
             rendered.append([c[0].hex(), str(i), i.__str__('att_syntax')])
             H.emul_lines(m, [i])
         return {'dump_id': m.dump_id(), 'dump_mem': m.dump_mem(), 'rendered': rendered}
+    if k == 'symline':
+        # a line whose operand adds several symbols, taken through the assembler's own flow
+        # (parse_mnemo -> normalize_args -> asm_candidates) and rendered / lifted
+        prefix, name, args = A.x86_mn.parse_mnemo(item['line'])
+        A.x86_mn.normalize_args(name, args)
+        instr = A.x86_mn()
+        cand = instr.asm_candidates(prefix, name, [a.copy() for a in args])
+        if not cand:
+            return {'symline': None}
+        instr.prefix, instr.m, instr.arg, instr.offset, instr.l = prefix, cand[0][0], args, 0, 0
+        out = {'intel': str(instr), 'att': instr.__str__('att_syntax')}
+        try:
+            sem = H.get_instr_expr(instr, E.ExprInt(MI.uint32(0x1000)), [])
+            out['sem'] = [str(x) for x in sem]
+        except ValueError:
+            out['sem'] = 'not liftable'
+        return out
     if k == 'sets':
         e = build(item['e'])
         return {'r': sorted(str(x) for x in e.get_r()), 'r_mem': sorted(str(x) for x in e.get_r(True))}
